@@ -24,6 +24,7 @@ func checkC14(r *Run) {
 	ruleErrorHandler(r, p)
 	ruleA13(r, p, map[string]bool{"": true}, "c")
 	ruleMultiAlwaysWraps(r, p)
+	ruleMultiKeepsEveryWriter(r, p, "FANOUT")
 	// a destination that keeps a rejected event's text in a pooled buffer prepends it to the next,
 	// healthy event ("subsequent events are complete and unaffected")
 	ruleBufferPoolClean(r, p, []string{""})
